@@ -68,7 +68,8 @@ def case_strategy(draw):
         ks = sorted(set(int(v) for v in rng.integers(0, n, 3)))
     disp = rng.uniform(-0.5, 0.5, (len(ks), 3))
     base.update({"new": new.tolist(), "ks": ks, "disp": disp.tolist(),
-                 "how": draw(st.sampled_from(["fresh", "fresh", "inplace"])), "prior_seed": draw(st.integers(0, 2 ** 31))})
+                 "how": draw(st.sampled_from(["fresh", "fresh", "inplace"])), "prior_seed": draw(st.integers(0, 2 ** 31)),
+                 "rescale": draw(st.sampled_from([None, None, None, None, 0.25, 0.8, 1.0, 1.9]))})
     return base
 
 
@@ -84,6 +85,8 @@ def check(case):
     anchors, assign = xc.oracle_assignment(case)
     chosen = xc.check_equivalences(M, assign)
     prior = xc.prior_call(M, case, case.get("prior_seed", 0))
+    if case.get("rescale") is not None:
+        M.scale_factor = case["rescale"]
     if case.get("how") == "inplace":
         # the new conformation is given to the very molecule object the map was built from
         ref.atoms_positions = new.copy()
@@ -93,24 +96,40 @@ def check(case):
     out = positions(lib("map-apply", M, conf))
     if not np.all(np.isfinite(out)):
         raise PropertyViolation("finite", "non-finite mapped coordinates")
-    # (a) distance to the anchor scales by s
-    for j, a in enumerate(chosen):
-        d_old = float(np.linalg.norm(tpos[j] - rpos[a]))
-        d_new = float(np.linalg.norm(out[j] - new[a]))
-        if not abs(d_new - s * d_old) <= 1e-9 * max(1.0, d_old):
-            raise PropertyViolation("anchor-distance", "atom %d: |mapped-anchor|=%.12g, expected s*%.12g=%.12g"
-                                    % (j, d_new, d_old, s * d_old))
-    # (b) atoms sharing an anchor keep their mutual distances x s
-    by_anchor = {}
-    for j, a in enumerate(chosen):
-        by_anchor.setdefault(a, []).append(j)
-    for a, js in by_anchor.items():
-        if len(js) > 1:
-            d0 = np.linalg.norm(tpos[js][:, None] - tpos[js][None], axis=-1)
-            d1 = np.linalg.norm(out[js][:, None] - out[js][None], axis=-1)
-            if not np.abs(d1 - s * d0).max() <= 1e-9 * max(1.0, d0.max()):
-                raise PropertyViolation("shared-anchor-shape", "atoms of anchor %d: mutual distances differ "
-                                        "from s x construction by %.3e" % (a, np.abs(d1 - s * d0).max()))
+
+    def shape_violation(s):
+        by_anchor = {}
+        # (a) distance to the anchor scales by s
+        for j, a in enumerate(chosen):
+            d_old = float(np.linalg.norm(tpos[j] - rpos[a]))
+            d_new = float(np.linalg.norm(out[j] - new[a]))
+            if not abs(d_new - s * d_old) <= 1e-9 * max(1.0, d_old):
+                return PropertyViolation("anchor-distance", "atom %d: |mapped-anchor|=%.12g, expected s*%.12g=%.12g"
+                                        % (j, d_new, d_old, s * d_old))
+        # (b) atoms sharing an anchor keep their mutual distances x s
+        for j, a in enumerate(chosen):
+            by_anchor.setdefault(a, []).append(j)
+        for a, js in by_anchor.items():
+            if len(js) > 1:
+                d0 = np.linalg.norm(tpos[js][:, None] - tpos[js][None], axis=-1)
+                d1 = np.linalg.norm(out[js][:, None] - out[js][None], axis=-1)
+                if not np.abs(d1 - s * d0).max() <= 1e-9 * max(1.0, d0.max()):
+                    return PropertyViolation("shared-anchor-shape", "atoms of anchor %d: mutual distances differ "
+                                            "from s x construction by %.3e" % (a, np.abs(d1 - s * d0).max()))
+        return None
+
+    if case.get("rescale") is not None:
+        # the public attribute was re-assigned after construction (and after a call): the statement fixes s at
+        # construction, so either the construction value or - if the library chooses to honour the attribute - the
+        # new value must describe the whole result
+        v = shape_violation(s)
+        if v is not None and shape_violation(case["rescale"]) is not None:
+            raise PropertyViolation(v.clause, "after map.scale_factor was set from %r to %r: %s"
+                                    % (s, case["rescale"], v.message), cls="rescaled:" + v.clause)
+    else:
+        v = shape_violation(s)
+        if v is not None:
+            raise v
     # (c) locality
     stencil = {a: {a, n1, n2} for a, n1, n2 in gen.anchor_triples(n, edges)}
     n_outside = 0
@@ -136,7 +155,8 @@ def check(case):
             "classes": ["anchors-used:%s" % ("1" if nused == 1 else "2+"),
                         "s=1" if s == 1.0 else "s!=1", "graph:" + case["ref"]["graph"],
                         "how:" + case.get("how", "fresh"), "after-other-call" if prior else "first-call",
-                        "conf:" + case.get("conf", "generic"), "geom:" + case["geom"]]}
+                        "conf:" + case.get("conf", "generic"), "geom:" + case["geom"],
+                        "scale-attribute-reassigned" if case.get("rescale") is not None else "scale-fixed"]}
 
 
 SUBCHECKS = [
